@@ -15,7 +15,7 @@ RULE = ("call sequences over {open_rx_pipe(0|1|2,a), close_rx_pipe(0|1), open_tx
         "last call is followed by real probe transmissions (a third radio sending to the "
         "user's address and to the TX address; send() to a listening peer). Non-trivial: at "
         "least one role change was observed; distinct = distinct call histories.")
-RULE += (" Later rounds added: neutral calls mixed into the random walks (get_auto_ack, power, an open_rx_pipe(0, empty) the driver refuses, CE driven by the application in TX role), directed templates beyond the search depth (two TX addresses with auto-ack changes between them; a neutral call before each of two RX entries).")
+RULE += (" Later rounds added: neutral calls mixed into the random walks (get_auto_ack, power, an open_rx_pipe(0, empty) the driver refuses, CE driven by the application in TX role), auto-ack for pipe 0 switched on implicitly by ack = True, directed templates beyond the search depth (two TX addresses with auto-ack changes between them; a neutral call before each of two RX entries).")
 REQUIRED = {"rx_entry_pipe0": 300, "probe_user_addr": 100, "probe_tx_addr": 50,
             "tx_pipe0_ack_addr": 200, "send_probe": 100, "ce_at_return": 2000,
             "prim_rx_flip_ce": 500}
@@ -62,6 +62,8 @@ class Ref:
             self.aa0 = bool(op[1] & 1)
         elif n == "listen":
             self.role = "rx" if op[1] else "tx"
+        elif n == "ack" and op[1]:
+            self.aa0 = True  # documented: ACK payloads need (and switch on) auto-ack for pipe 0
 
 
 def do(obj, op):
@@ -82,6 +84,8 @@ def do(obj, op):
         obj.get_auto_ack(op[1])
     elif n == "power":
         obj.power = op[1]
+    elif n == "ack":
+        obj.ack = op[1]
     elif n == "open_rx_pipe_rejected":
         # a call the driver refuses (empty address): ValueError, and nothing the property speaks
         # about may have changed
@@ -97,6 +101,8 @@ def do(obj, op):
 NEUTRAL_OPS = [["get_auto_ack", 0], ["get_auto_ack", 2], ["get_auto_ack", 5], ["power", False], ["power", True],
                ["open_rx_pipe_rejected", 0], ["open_rx_pipe_rejected", 1], ["ce", True], ["ce", False]]
 FULL_ONLY_NEUTRAL = ("get_auto_ack", "ce")
+# auto-ack for pipe 0 switched on implicitly (ACK payloads); part of the walks and templates of the full driver
+IMPLICIT_AA = [["ack", True], ["ack", False]]
 
 
 def obj_state(obj):
@@ -310,7 +316,7 @@ def run_shard(ctx, kind="full", prefix=""):
         for y in (A, C, E):
             for aa1 in (None, ["set_auto_ack", 0, 0], ["auto_ack", 0x3E], ["auto_ack", 0]):
                 for z in (C, D, E, A):
-                    for aa2 in (None, ["set_auto_ack", 1, 0], ["auto_ack", 0x3F]):
+                    for aa2 in (None, ["set_auto_ack", 1, 0], ["auto_ack", 0x3F], ["ack", True]):
                         if kind != "full" and (aa1 or aa2):
                             continue
                         path = [["open_rx_pipe", 0, x], ["open_tx_pipe", y]] + ([aa1] if aa1 else []) + \
@@ -345,7 +351,8 @@ def run_shard(ctx, kind="full", prefix=""):
             break
         aw = rng.choice([3, 4, 5])
         L = rng.randrange(5, 31)
-        walk_ops = ops + [o for o in NEUTRAL_OPS if kind == "full" or o[0] not in FULL_ONLY_NEUTRAL]
+        walk_ops = ops + [o for o in NEUTRAL_OPS if kind == "full" or o[0] not in FULL_ONLY_NEUTRAL] \
+            + (IMPLICIT_AA if kind == "full" else [])
         path = [rng.choice(walk_ops) for _ in range(L)]
         # the probes need a powered radio (send() does not power the radio up: documented usage
         # is listen = False first); `listen` assignments power it up themselves
